@@ -98,7 +98,7 @@ func TestC17(t *testing.T) {
 		"goroutines are attributed to a connection by pprof labels inherited from the scenario goroutine", "virtual time (synctest) for 'returns once the peer is gone'")
 	trk := installCtxWatch()
 	defer pooltrack.Uninstall()
-	n := r.Pick(2500, 150000)
+	n := r.Pick(4000, 150000)
 	for i := 0; i < n; i++ {
 		id := fmt.Sprintf("h%d", i)
 		if !r.Want(i, id) {
